@@ -431,6 +431,12 @@ Definition organize_gen (lay : layout) (pr : prefs) (sort : bool) (names : list 
   let l4 := reparse l3 in
   Some (if sort then reparse (sort_imports lay (p_alpha pr) l4) else l4)).
 
+(* the first stage alone (unused, split_imports, duplicates) *)
+Definition stage1_infos (lay : layout) (pr : prefs) (names : list dotted) (l : list stmt) : option (list stmt) :=
+  let l1 := remove_unused lay names l in
+  let l2 := if p_split pr then force_single l1 else l1 in
+  remove_duplicates (p_split pr) l2.
+
 Definition organize (lay : layout) (pr : prefs) (used : list dotted) (exported : list text) (l : list stmt)
   : option (list stmt) :=
   organize_gen lay pr true (names_unused used exported) l.
